@@ -2618,6 +2618,21 @@ func ruleClosureFollowsAll(c *Ctx, rule string) {
 		if fr.Decl.Body == nil {
 			continue
 		}
+		litOfVar := map[types.Object]*ast.FuncLit{}
+		ast.Inspect(fr.Decl.Body, func(m ast.Node) bool {
+			if as, ok := m.(*ast.AssignStmt); ok && len(as.Lhs) == len(as.Rhs) {
+				for i, l := range as.Lhs {
+					if id, ok := l.(*ast.Ident); ok {
+						if lit, ok := ast.Unparen(as.Rhs[i]).(*ast.FuncLit); ok {
+							if o := info.ObjectOf(id); o != nil {
+								litOfVar[o] = lit
+							}
+						}
+					}
+				}
+			}
+			return true
+		})
 		ast.Inspect(fr.Decl.Body, func(m ast.Node) bool {
 			rs, ok := m.(*ast.RangeStmt)
 			if !ok || !strings.Contains(exprString(rs.X), "Dependency") {
@@ -2625,8 +2640,16 @@ func ruleClosureFollowsAll(c *Ctx, rule string) {
 			}
 			recursive := false
 			ast.Inspect(rs.Body, func(x ast.Node) bool {
-				if call, ok := x.(*ast.CallExpr); ok && Callee(info, call) == fr.Obj {
-					recursive = true
+				if call, ok := x.(*ast.CallExpr); ok {
+					if Callee(info, call) == fr.Obj {
+						recursive = true
+					}
+					// a recursive function literal: the loop lies inside the literal held by the called variable
+					if id, ok := ast.Unparen(call.Fun).(*ast.Ident); ok {
+						if lit := litOfVar[info.Uses[id]]; lit != nil && lit.Pos() <= rs.Pos() && rs.End() <= lit.End() {
+							recursive = true
+						}
+					}
 				}
 				return true
 			})
@@ -3129,7 +3152,11 @@ func c12KeptImpliesWalked(c *Ctx, pk *packages.Package) {
 	}
 	// (B) the include-everything walk skips import files
 	skipsImports, foundB := false, false
-	if fr := p.Func("private/bufpkg/bufimage/bufimageutil", "filterImage"); fr != nil {
+	// (wherever in the package the walk is seeded from the image's files: filterImage or a function split off it)
+	for _, fr := range p.FuncsOf(pk) {
+		if fr.Decl.Body == nil {
+			continue
+		}
 		ast.Inspect(fr.Decl.Body, func(n ast.Node) bool {
 			rs, ok := n.(*ast.RangeStmt)
 			if !ok || !strings.HasSuffix(exprString(rs.X), ".Files()") {
